@@ -1061,6 +1061,7 @@ pub fn exec_op(ctx: Ctx, op: &Op) {
         Op::CloneHandle { h, h2 } => op_clone_handle(ctx, *h, *h2),
         Op::ArmDropPanic { h } => op_arm_panic(ctx, *h),
         Op::ArmStored { c } => op_arm_stored(ctx, *c),
+        Op::ArmProjPanic { k } => crate::extras::op_arm_proj_panic(*k),
         Op::Spawn { t } => op_spawn(ctx, *t),
         Op::Join { t } => op_join(ctx, *t),
         Op::TlsOp { ops } => op_tls(ctx, ops),
